@@ -5,7 +5,7 @@
      jls_bits_len             = jpegls/lossless/context.go  bitsLen
      jls_coding_params        = jpegls/lossless/context.go  ComputeCodingParameters
      jlsl_parse_sof55/lse/sos = jpegls/lossless/decoder.go  parseSOF55 (+ NewTraits, initCodingParameters) / parseLSE / parseSOS
-     jlsl_decode              = jpegls/lossless/decoder.go  (*Decoder).decode : marker loop, then the
+     jlsl_decode              = jpegls/lossless/decoder.go  Decoder.decode : marker loop, then the
                                 allocations of decodeScan (scan buffer, pixels, output bytes)
      jlsn_*                   = jpegls/nearlossless/decoder.go  the same for the near-lossless decoder
                                 (parameters are derived in parseSOS by applyCodingParameters)
